@@ -295,9 +295,16 @@ def colorizer (can : Bool) (s : Str) : Str :=
 
 /-! ## isolating the message -/
 
-/-- The guard of the loop: `parts[index].lstrip(" \\t\\r\\n\\ufeff").startswith("{")`. -/
+/-- The guard of the loop: `parts[index].lstrip(" \\t\\r\\n\\ufeff").startswith("{")`; the characters
+stripped and the text looked for are read from the source (`Gen.Sanitise.guardStrip`, `guardOpen`). -/
 def opensObject (p : Str) : Bool :=
-  (p.dropWhile fun c => c == ' ' || c == '\t' || c == '\r' || c == '\n' || c == Char.ofNat 0xfeff).head? == some '{'
+  (stripPrefix charEq Gen.Sanitise.guardOpen (p.dropWhile fun c => Gen.Sanitise.guardStrip.contains c)).isSome
+
+/-- What the isolation theorems need of the extracted guard: it strips (at least) JSON white space,
+does not strip `{`, and looks for `{`. -/
+def GuardOK : Prop :=
+  (∀ c : Char, (c == ' ' || c == '\t' || c == '\n' || c == '\r') = true → c ∈ Gen.Sanitise.guardStrip)
+  ∧ '{' ∉ Gen.Sanitise.guardStrip ∧ Gen.Sanitise.guardOpen = ['{']
 
 /-- The loop of `sanitize_record`: `index` runs over the fields; fields that cannot open an object
 are skipped; the first (= longest) run of trailing fields that parses as an object is the message,
@@ -349,7 +356,9 @@ def renderPlain (can : Bool) (record : Str) : Str :=
 
 /-- `sanitize_record`. -/
 def sanitize (h : Json → Str) (can : Bool) (parse : Str → Option (List (Str × Json))) (record : Str) : Str :=
-  match isolate parse [] (splitOn '|' record) with
+  let parts := splitOn '|' record
+  -- `for index in range(<isolateStart>, len(parts))`: the first index tried is read from the source
+  match isolate parse (parts.take Gen.Sanitise.isolateStart) (parts.drop Gen.Sanitise.isolateStart) with
   | some (head, d) => renderJson h can head d
   | none => renderPlain can record
 
@@ -361,14 +370,20 @@ def findAt (close : Char) : Str → Option Str
   | [] => none
   | c :: r => if c = close then some r else if c = '\n' then none else findAt close r
 
-/-- `re.sub(r"://(.*?)@", replacement, msg)`: leftmost, non-overlapping, lazy. -/
-def redactUrlF : Nat → Str → Str
+/-- `re.sub(r"://(.*?)@", replacement, msg)`: leftmost, non-overlapping, lazy; `rep` is the
+replacement text (the text formatter and the structured logger use different ones). -/
+def redactUrlWF (rep : Str) : Nat → Str → Str
   | 0, s => s
   | _, [] => []
   | n + 1, c :: r =>
     match (stripPrefix charEq Gen.Sanitise.urlOpen (c :: r)).bind (findAt Gen.Sanitise.urlClose) with
-    | some rest => Gen.Sanitise.urlReplacement ++ redactUrlF n rest
-    | none => c :: redactUrlF n r
+    | some rest => rep ++ redactUrlWF rep n rest
+    | none => c :: redactUrlWF rep n r
+
+/-- `format()` l.67: the replacement of the text formatter. -/
+abbrev redactUrlF : Nat → Str → Str := redactUrlWF Gen.Sanitise.urlReplacement
+
+def redactUrlWith (rep : Str) (s : Str) : Str := redactUrlWF rep (s.length + 1) s
 
 def redactUrl (s : Str) : Str := redactUrlF (s.length + 1) s
 
@@ -533,5 +548,34 @@ def tokenHeadOK (c : Char) : Bool :=
 /-- One attempt of the URL regular expression at the front of `s`: the text after the `@`. -/
 def urlStep (s : Str) : Option Str :=
   (stripPrefix charEq Gen.Sanitise.urlOpen s).bind (findAt Gen.Sanitise.urlClose)
+
+/-! ## glue for the functions generated from the source (`Generated/SanitiseFns.lean`)
+
+`harness/extractors/c20_fns.py` translates the loop body of `clean_record`, `format`, the tail of
+`sanitize_record` and the two branches of `write_event` statement by statement; the translations take
+the helpers they call as parameters, and `Props/C20.lean` instantiates them with the definitions
+below and proves the result equal to the model above (`generated_*_eq_model`). -/
+
+def Json.isObj : Json → Bool
+  | .obj _ => true
+  | _ => false
+
+/-- `str(self.clean_record(value, colorize))`: what the recursive call contributes to the member's
+text (the call is only reached for objects). -/
+def cleanRecText (h : Json → Str) (c : Colors) : Json → Str
+  | .obj kvs => pyReprDict (cleanObj h c kvs)
+  | _ => []
+
+/-- `QUOTES_OR_BACKTICKS_RE.sub(color_value, str(value))`. -/
+def renderVal (c : Colors) (v : Json) : Str := quoteColour c (pyStr v)
+
+/-- `colors[name]`. -/
+def colorOf (c : Colors) (n : Str) : Str :=
+  if n = ['K', 'E', 'Y'] then c.key
+  else if n = ['O', 'F', 'F'] then c.off
+  else if n = ['P', 'U', 'R', 'P', 'L', 'E'] then c.purple
+  else if n = ['Y', 'E', 'L', 'L', 'O', 'W'] then c.yellow
+  else if n = ['V', 'A', 'L', 'U', 'E'] then c.value
+  else []
 
 end Sanitise
